@@ -99,10 +99,69 @@ pub fn one_case(r: &mut Rng, n: usize, steps: usize, ips: usize) -> String {
     format!("{{| c_self := {}; c_univ := {}; c_steps := [{}] |}}", n_hex(&self_id), univ_coq(&u), out.join(";\n "))
 }
 
+/// a bucket whose order is not the order of last contact: ten nodes added early (stale by the end) sit in one bucket,
+/// ten added 16 minutes later in another; a re-key merges both into one full bucket with a fresh head and stale
+/// entries behind it; then a new node knocks: nothing fresh may go
+pub fn disordered_bucket_case(r: &mut Rng, early_first: bool) -> String {
+    let self_id = id20(r);
+    let mut u: Vec<UNode> = Vec::new();
+    // each node on its own private address: the per-IP rules stay out of the way
+    for k in 0..10u32 {
+        u.push(UNode { id: id_at_distance(&self_id, 158, r), ip: 0x0a00_0100 + k, port: 1000 });
+    }
+    for k in 0..10u32 {
+        u.push(UNode { id: id_at_distance(&self_id, 159, r), ip: 0x0a00_0200 + k, port: 1000 });
+    }
+    for k in 0..3u32 {
+        u.push(UNode { id: id_at_distance(&self_id, 157, r), ip: 0x0a00_0300 + k, port: 1000 });
+    }
+    let mut t = RoutingTable::new(Id::from(self_id));
+    let mut now: u64 = 1000;
+    let mut out: Vec<String> = Vec::new();
+    let mut step = |t: &mut RoutingTable, now: u64, op: String, ret: bool, out: &mut Vec<String>| {
+        let nodes = t.to_owned_nodes();
+        out.push(format!(
+            "{{| s_now := {}; s_op := {}; s_ret := {}; s_size := {}; s_empty := {}; s_dump := {}; s_boot := None |}}",
+            z(now as i128),
+            op,
+            boolean(ret),
+            t.size(),
+            boolean(t.is_empty()),
+            idx_list(&u, &nodes)
+        ));
+    };
+    // which group is added early decides whether the merged bucket's head is fresh or stale
+    let (first, second): (Vec<usize>, Vec<usize>) = if early_first { ((10..20).collect(), (0..10).collect()) } else { ((0..10).collect(), (10..20).collect()) };
+    simclock::set_ms(now);
+    for k in first {
+        let ret = t.add(u[k].node());
+        step(&mut t, now, format!("OAdd {}%nat", k), ret, &mut out);
+    }
+    now += 16 * 60 * 1000;
+    simclock::set_ms(now);
+    for k in second {
+        let ret = t.add(u[k].node());
+        step(&mut t, now, format!("OAdd {}%nat", k), ret, &mut out);
+    }
+    // re-key to an id on the other side of the first bit: all twenty land in the bucket of distance 160
+    let new_id = id_at_distance(&self_id, 160, r);
+    dht::verif::routing_table_reset_id(&mut t, Id::from(new_id));
+    step(&mut t, now, format!("OReset {}", n_hex(&new_id)), false, &mut out);
+    now += 1000;
+    simclock::set_ms(now);
+    for k in 20..23usize {
+        let ret = t.add(u[k].node());
+        step(&mut t, now, format!("OAdd {}%nat", k), ret, &mut out);
+    }
+    format!("{{| c_self := {}; c_univ := {}; c_steps := [{}] |}}", n_hex(&self_id), univ_coq(&u), out.join(";\n "))
+}
+
 pub fn generate(seed: u64, scale: usize) -> Cases {
     let mut r = Rng::new(seed ^ 0xC12);
     let mut cases = Cases::new();
     let shapes: &[(usize, usize, usize)] = &[(3, 30, 1), (8, 60, 2), (30, 120, 3), (45, 150, 8), (60, 200, 8), (25, 200, 1), (70, 250, 4)];
+    cases.push("disordered_bucket_fresh_head", disordered_bucket_case(&mut r, true));
+    cases.push("disordered_bucket_stale_head", disordered_bucket_case(&mut r, false));
     for _ in 0..(3 * scale.max(1)) {
         for &(n, steps, ips) in shapes {
             cases.push(&format!("n{}_s{}", n, steps), one_case(&mut r, n, steps, ips));
